@@ -5,6 +5,7 @@ import Mathlib.Tactic.NormNum
 import Mathlib.Tactic.LinearCombination
 import BronVerif.Model.CurveEnc
 import BronVerif.Lemmas.CurveEncBytes
+import BronVerif.Gen.EncConsts
 /-!
 # C13 — element encodings are faithful; decoders admit only valid group elements
 
@@ -339,7 +340,511 @@ theorem mont_compressed_sign_lost (P : EPt F) :
     simp only [Mont.encodeCompressed, E.neg, h0, h1, if_false]
     rfl
 
+/-- **curve25519, uncompressed `u ‖ v`**: the point of order 2, `(0, -1)`, is the Montgomery point
+`(0, 0)`, so its encoding is the all-zero string — the identity's (distinct elements, one encoding;
+decoding returns the identity) -/
+theorem mont_order2_collides (c : F) (h2 : (2 : F) ≠ 0) (h0 : io.toNat 0 = 0) :
+    (⟨0, -1⟩ : EPt F) ≠ E.zero ∧
+    Mont.encodeUncompressed io c len ⟨0, -1⟩ = Mont.encodeUncompressed io c len E.zero := by
+  have hne : (⟨0, -1⟩ : EPt F) ≠ E.zero := by
+    intro h
+    have h1 : (-1 : F) = 1 := by
+      have := congrArg EPt.y h
+      simpa [E.zero] using this
+    apply h2
+    linear_combination -h1
+  refine ⟨hne, ?_⟩
+  have hu : Mont.u? (⟨0, -1⟩ : EPt F) = some 0 := by
+    have : (1 : F) - -1 = 2 := by ring
+    simp [Mont.u?, this, h2]
+  have hv : Mont.v? c (⟨0, -1⟩ : EPt F) = some 0 := by
+    simp [Mont.v?, hne]
+  simp [Mont.encodeUncompressed, hne, hu, hv, h0]
+
 end others
+
+/-! ## value of an accepted encoding, and off-curve coordinates (SEC1, Pasta, Edwards) -/
+
+section value
+variable {F : Type} [Field F] [DecidableEq F] (io : FieldIO F) (a b : F) (len : Nat)
+
+/-- **accepted ⇒ the element the bytes denote** (SEC1 compressed): the `x` of an accepted point is the
+field element read from the coordinate bytes; a coordinate that reads as `0` gives the identity -/
+theorem decode_value (tag : Nat) (xs : List Nat) (P : WPt F)
+    (hd : Sec1.decodeCompressed io a b len (tag :: xs) = some P) :
+    (io.ofNat (beNat xs) = 0 → P = .inf) ∧ (∀ x y, P = .aff x y → x = io.ofNat (beNat xs)) := by
+  simp only [Sec1.decodeCompressed] at hd
+  split at hd
+  · simp at hd
+  · split at hd
+    · simp at hd
+    · split at hd
+      · next h0 => cases hd; exact ⟨fun _ => rfl, fun x y h => by cases h⟩
+      · next h0 =>
+        split at hd
+        · simp at hd
+        · cases hd
+          exact ⟨fun h => absurd h h0, fun x y h => by cases h; rfl⟩
+
+/-- **off-curve ⇒ rejected** (SEC1, both forms) -/
+theorem decode_offcurve (h : GoodIO io len) (tag : Nat) :
+    (∀ xs : List Nat, io.ofNat (beNat xs) ≠ 0 →
+      (∀ y : F, y * y ≠ io.ofNat (beNat xs) * io.ofNat (beNat xs) * io.ofNat (beNat xs) + a * io.ofNat (beNat xs) + b) →
+      Sec1.decodeCompressed io a b len (tag :: xs) = none) ∧
+    (∀ rest : List Nat,
+      ¬ (io.ofNat (beNat (rest.take len)) = 0 ∧ io.ofNat (beNat (rest.drop len)) = 0) →
+      W.onCurve a b (.aff (io.ofNat (beNat (rest.take len))) (io.ofNat (beNat (rest.drop len)))) = false →
+      Sec1.decodeUncompressed io a b len (tag :: rest) = none) := by
+  constructor
+  · intro xs hx hoff
+    cases hdec : Sec1.decodeCompressed io a b len (tag :: xs) with
+    | none => rfl
+    | some P =>
+      exfalso
+      simp only [Sec1.decodeCompressed] at hdec
+      split at hdec
+      · simp at hdec
+      · split at hdec
+        · simp at hdec
+        · -- the branch `x = 0` is closed by `split` itself (it contradicts `hx`)
+          split at hdec
+          · simp at hdec
+          · next _ r hr => exact hoff r (h.sqrt_sound _ _ hr)
+  · intro rest h0 hoff
+    simp only [Sec1.decodeUncompressed]
+    split
+    · rfl
+    · split
+      · rfl
+      · simp [hoff]
+
+/-- accepted ⇒ the `x` read from the low `8·len − 1` bits (Pasta compressed) -/
+theorem pasta_decode_value (bs : List Nat) (x y : F)
+    (hd : Pasta.decodeCompressed io a b len bs = some (.aff x y)) :
+    x = io.ofNat (leNat bs % topBit len) := by
+  simp only [Pasta.decodeCompressed] at hd
+  split at hd
+  · simp at hd
+  · split at hd
+    · simp at hd
+    · split at hd
+      · simp at hd
+      · cases hd; rfl
+
+/-- off-curve ⇒ rejected (Pasta compressed) -/
+theorem pasta_decode_offcurve (h : GoodIO io len) (bs : List Nat)
+    (hx : io.ofNat (leNat bs % topBit len) ≠ 0)
+    (hoff : ∀ y : F, y * y ≠ io.ofNat (leNat bs % topBit len) * io.ofNat (leNat bs % topBit len) *
+      io.ofNat (leNat bs % topBit len) + a * io.ofNat (leNat bs % topBit len) + b) :
+    Pasta.decodeCompressed io a b len bs = none := by
+  cases hdec : Pasta.decodeCompressed io a b len bs with
+  | none => rfl
+  | some P =>
+    exfalso
+    simp only [Pasta.decodeCompressed] at hdec
+    split at hdec
+    · simp at hdec
+    · split at hdec
+      · next h0 => exact hx h0.1
+      · split at hdec
+        · simp at hdec
+        · next r hr => exact hoff r (h.sqrt_sound _ _ hr)
+
+/-- accepted ⇒ the `y` read from the low `8·len − 1` bits (Edwards compressed) -/
+theorem ed_decode_value (d : F) (bs : List Nat) (P : EPt F)
+    (hd : Ed.decodeCompressed io a d len bs = some P) : P.y = io.ofNat (leNat bs % topBit len) := by
+  simp only [Ed.decodeCompressed] at hd
+  split at hd
+  · simp at hd
+  · split at hd
+    · simp at hd
+    · split at hd
+      · simp at hd
+      · cases hd; rfl
+
+end value
+
+/-! ## round trips of the flag-bit formats (Pasta, Edwards) -/
+
+section flagbit
+variable {F : Type} [Field F] [DecidableEq F] (io : FieldIO F) (a b : F) (len : Nat)
+
+omit [DecidableEq F] in
+theorem sqrt_pm (h : GoodIO io len) (y : F) : ∃ r, io.sqrt? (y * y) = some r ∧ (r = y ∨ r = -y) := by
+  obtain ⟨r, hr⟩ := h.sqrt_complete y
+  have hrr : r * r = y * y := h.sqrt_sound _ _ hr
+  refine ⟨r, hr, ?_⟩
+  have : (r - y) * (r + y) = 0 := by linear_combination hrr
+  rcases mul_eq_zero.1 this with h1 | h1
+  · left; exact sub_eq_zero.1 h1
+  · right; exact eq_neg_of_add_eq_zero_left h1
+
+/-- choosing the root by parity returns `y` -/
+theorem pick_parity (h : GoodIO io len) (y r : F) (hr : r = y ∨ r = -y) :
+    (if io.toNat r % 2 = io.toNat y % 2 then r else -r) = y := by
+  rcases hr with rfl | rfl
+  · simp
+  · by_cases hy0 : y = 0
+    · subst hy0; simp
+    · have := h.parity_neg y hy0
+      simp [this]
+
+/-- **decode ∘ encode, Pasta compressed** (`x ‖ sign(y)` little endian, identity = all zero): every
+curve point round-trips except a point `(0, y)` with even `y`, whose encoding is the identity's
+(pallas / vesta have no point with `x = 0`: `pallas_no_x0`, `vesta_no_x0`).  `hTop`: canonical
+representatives leave the flag bit free (255-bit fields in 32 bytes). -/
+theorem pasta_decode_encode (h : GoodIO io len) (hlen : 0 < len) (hTop : ∀ x, io.toNat x < topBit len)
+    (P : WPt F) (hP : W.onCurve a b P = true)
+    (hx : ∀ x y, P = .aff x y → ¬ (x = 0 ∧ io.toNat y % 2 = 0)) :
+    Pasta.decodeCompressed io a b len (Pasta.encodeCompressed io len P) = some P := by
+  cases P with
+  | inf =>
+    have h0 : leNat (leBytes len 0) = 0 := leNat_leBytes len 0 (by positivity)
+    simp [Pasta.encodeCompressed, Pasta.decodeCompressed, length_leBytes, h0, h.ofNat_zero]
+  | aff x y =>
+    have hxy : y * y = x * x * x + a * x + b := (onCurve_aff_iff a b x y).1 hP
+    have hs : io.toNat y % 2 < 2 := Nat.mod_lt _ (by norm_num)
+    have hn := leNat_leBytes_flag len (io.toNat x) (io.toNat y % 2) hlen (hTop x) hs
+    obtain ⟨hsign, hbody⟩ := flag_split (topBit len) (io.toNat x) (io.toNat y % 2) (hTop x) hs
+    obtain ⟨r, hr, hry⟩ := sqrt_pm io len h y
+    have hne := hx x y rfl
+    simp only [Pasta.encodeCompressed, Pasta.decodeCompressed, length_leBytes, ne_eq, not_true_eq_false,
+      if_false, hn, hsign, hbody, h.ofNat_toNat, hne, ← hxy, hr]
+    rw [pick_parity io len h y r hry]
+
+/-- **decode ∘ encode, Pasta uncompressed**: every curve point -/
+theorem pasta_decode_encode_uncompressed (h : GoodIO io len) (hb : b ≠ 0) (P : WPt F)
+    (hP : W.onCurve a b P = true) :
+    Pasta.decodeUncompressed io a b len (Pasta.encodeUncompressed io len P) = some P := by
+  cases P with
+  | inf =>
+    have h0 : leNat (leBytes len 0) = 0 := leNat_leBytes len 0 (by positivity)
+    have hl : (leBytes len 0 ++ leBytes len 0).length = 2 * len := by simp [length_leBytes]; omega
+    simp [Pasta.encodeUncompressed, Pasta.decodeUncompressed, hl, List.take_left' (length_leBytes len 0),
+      List.drop_left' (length_leBytes len 0), h0, h.ofNat_zero]
+  | aff x y =>
+    have hxy := (onCurve_aff_iff a b x y).1 hP
+    have hbx : leNat (leBytes len (io.toNat x)) = io.toNat x := leNat_leBytes _ _ (h.toNat_lt x)
+    have hby : leNat (leBytes len (io.toNat y)) = io.toNat y := leNat_leBytes _ _ (h.toNat_lt y)
+    have hl : (leBytes len (io.toNat x) ++ leBytes len (io.toNat y)).length = 2 * len := by
+      simp [length_leBytes]; omega
+    have hne : ¬ (x = 0 ∧ y = 0) := by
+      rintro ⟨rfl, rfl⟩
+      apply hb
+      have := hxy
+      simp at this
+      exact this.symm
+    simp [Pasta.encodeUncompressed, Pasta.decodeUncompressed, hl, List.take_left' (length_leBytes len _),
+      List.drop_left' (length_leBytes len _), hbx, hby, h.ofNat_toNat, hne, hP]
+
+/-- distinct curve points have distinct Pasta encodings -/
+theorem pasta_encode_injective (h : GoodIO io len) (hlen : 0 < len) (hTop : ∀ x, io.toNat x < topBit len)
+    (hb : b ≠ 0) (P Q : WPt F) (hP : W.onCurve a b P = true) (hQ : W.onCurve a b Q = true) :
+    (Pasta.encodeUncompressed io len P = Pasta.encodeUncompressed io len Q → P = Q) ∧
+    ((∀ x y, P = .aff x y → ¬ (x = 0 ∧ io.toNat y % 2 = 0)) →
+      (∀ x y, Q = .aff x y → ¬ (x = 0 ∧ io.toNat y % 2 = 0)) →
+      Pasta.encodeCompressed io len P = Pasta.encodeCompressed io len Q → P = Q) := by
+  constructor
+  · intro he
+    have h1 := pasta_decode_encode_uncompressed io a b len h hb P hP
+    have h2 := pasta_decode_encode_uncompressed io a b len h hb Q hQ
+    rw [he, h2] at h1
+    exact (Option.some.inj h1).symm
+  · intro hxP hxQ he
+    have h1 := pasta_decode_encode io a b len h hlen hTop P hP hxP
+    have h2 := pasta_decode_encode io a b len h hlen hTop Q hQ hxQ
+    rw [he, h2] at h1
+    exact (Option.some.inj h1).symm
+
+theorem ed_onCurve_iff (d : F) (P : EPt F) :
+    E.onCurve a d P = true ↔ a * P.x * P.x + P.y * P.y = 1 + d * P.x * P.x * P.y * P.y := by
+  simp [E.onCurve]
+
+/-- **decode ∘ encode, Edwards compressed** (`y ‖ sign(x)`): every curve point, provided the curve is
+complete in `y` (`a − d·y² ≠ 0`, true when `d/a` is a non-square as for edwards25519) -/
+theorem ed_decode_encode (h : GoodIO io len) (hlen : 0 < len) (hTop : ∀ x, io.toNat x < topBit len)
+    (d : F) (hden : ∀ y : F, a - d * (y * y) ≠ 0) (P : EPt F) (hP : E.onCurve a d P = true) :
+    Ed.decodeCompressed io a d len (Ed.encodeCompressed io len P) = some P := by
+  obtain ⟨x, y⟩ := P
+  have hxy : a * x * x + y * y = 1 + d * x * x * y * y := (ed_onCurve_iff a d ⟨x, y⟩).1 hP
+  have hs : io.toNat x % 2 < 2 := Nat.mod_lt _ (by norm_num)
+  have hn := leNat_leBytes_flag len (io.toNat y) (io.toNat x % 2) hlen (hTop y) hs
+  obtain ⟨hsign, hbody⟩ := flag_split (topBit len) (io.toNat y) (io.toNat x % 2) (hTop y) hs
+  obtain ⟨r, hr, hrx⟩ := sqrt_pm io len h x
+  have hd0 := hden y
+  have harg : (1 - y * y) * (a - d * (y * y))⁻¹ = x * x := by
+    have h1 : x * x * (a - d * (y * y)) = 1 - y * y := by linear_combination hxy
+    rw [← h1, mul_assoc, mul_inv_cancel₀ hd0, mul_one]
+  simp only [Ed.encodeCompressed, Ed.decodeCompressed, length_leBytes, ne_eq, not_true_eq_false,
+    if_false, hn, hsign, hbody, h.ofNat_toNat, hd0, harg, hr]
+  rw [pick_parity io len h x r hrx]
+
+/-- **decode ∘ encode, Edwards uncompressed** (`y ‖ x`, both top bits clear) -/
+theorem ed_decode_encode_uncompressed (h : GoodIO io len) (hTop : ∀ x, io.toNat x < topBit len)
+    (d : F) (P : EPt F) (hP : E.onCurve a d P = true) :
+    Ed.decodeUncompressed io a d len (Ed.encodeUncompressed io len P) = some P := by
+  obtain ⟨x, y⟩ := P
+  have hbx : leNat (leBytes len (io.toNat x)) = io.toNat x := leNat_leBytes _ _ (h.toNat_lt x)
+  have hby : leNat (leBytes len (io.toNat y)) = io.toNat y := leNat_leBytes _ _ (h.toNat_lt y)
+  have hl : (leBytes len (io.toNat y) ++ leBytes len (io.toNat x)).length = 2 * len := by
+    simp [length_leBytes]; omega
+  have htop : ¬ (topBit len ≤ io.toNat y ∨ topBit len ≤ io.toNat x) := by
+    have := hTop x; have := hTop y; omega
+  simp [Ed.encodeUncompressed, Ed.decodeUncompressed, hl, List.take_left' (length_leBytes len _),
+    List.drop_left' (length_leBytes len _), hbx, hby, h.ofNat_toNat, htop, hP]
+
+/-- distinct Edwards points have distinct encodings (both forms) -/
+theorem ed_encode_injective (h : GoodIO io len) (hlen : 0 < len) (hTop : ∀ x, io.toNat x < topBit len)
+    (d : F) (hden : ∀ y : F, a - d * (y * y) ≠ 0) (P Q : EPt F)
+    (hP : E.onCurve a d P = true) (hQ : E.onCurve a d Q = true) :
+    (Ed.encodeCompressed io len P = Ed.encodeCompressed io len Q → P = Q) ∧
+    (Ed.encodeUncompressed io len P = Ed.encodeUncompressed io len Q → P = Q) := by
+  constructor <;> intro he
+  · have h1 := ed_decode_encode io a len h hlen hTop d hden P hP
+    have h2 := ed_decode_encode io a len h hlen hTop d hden Q hQ
+    rw [he, h2] at h1
+    exact (Option.some.inj h1).symm
+  · have h1 := ed_decode_encode_uncompressed io a len h hTop d P hP
+    have h2 := ed_decode_encode_uncompressed io a len h hTop d Q hQ
+    rw [he, h2] at h1
+    exact (Option.some.inj h1).symm
+
+end flagbit
+
+/-! ## BLS12-381 (ZCash flags), at the level of the model: coordinates through a `CoordIO` view -/
+
+/-- what the BLS codecs assume about the coordinate view: the bytes of a coordinate leave the three
+flag bits free and read back to the coordinate; square roots are sound and complete; exactly one of
+`y`, `-y` is "lexicographically largest" -/
+structure GoodCoordIO {F : Type} [Field F] (io : CoordIO F) (len : Nat) : Prop where
+  bytes_shape : ∀ x, ∃ b0 rest, Bls.coordBytes io len x = b0 :: rest ∧ b0 < 32 ∧ rest.length + 1 = io.comps * len
+  read_bytes : ∀ x, Bls.readCoord io len (Bls.coordBytes io len x) = x
+  sqrt_sound : ∀ a r, io.sqrt? a = some r → r * r = a
+  sqrt_complete : ∀ y, ∃ r, io.sqrt? (y * y) = some r
+  isNeg_neg : ∀ y, y ≠ 0 → io.isNeg (-y) ≠ io.isNeg y
+
+section bls
+variable {F : Type} [Field F] [DecidableEq F] (io : CoordIO F) (a b : F) (n len : Nat)
+
+/-- wrong length ⇒ rejected (both forms) -/
+theorem bls_decode_len (bs : List Nat) :
+    (bs.length ≠ io.comps * len → Bls.decodeCompressed io a b n len bs = none) ∧
+    (bs.length ≠ 2 * io.comps * len → Bls.decodeUncompressed io a b n len bs = none) := by
+  constructor <;> intro hl <;> cases bs with
+  | nil => simp [Bls.decodeCompressed, Bls.decodeUncompressed]
+  | cons b0 rest =>
+    simp only [List.length_cons] at hl
+    simp [Bls.decodeCompressed, Bls.decodeUncompressed, hl]
+
+/-- wrong flag bits ⇒ rejected: the compressed flag must be set; infinity excludes the sort flag and
+any non-zero body bit -/
+theorem bls_decode_flags (b0 : Nat) (rest : List Nat) :
+    (b0 / 128 % 2 ≠ 1 → Bls.decodeCompressed io a b n len (b0 :: rest) = none) ∧
+    (b0 / 64 % 2 = 1 → b0 / 32 % 2 = 1 → Bls.decodeCompressed io a b n len (b0 :: rest) = none) ∧
+    (b0 / 64 % 2 = 1 → ((b0 % 32) :: rest).all (· == 0) = false →
+      Bls.decodeCompressed io a b n len (b0 :: rest) = none) := by
+  refine ⟨?_, ?_, ?_⟩
+  · intro hc
+    by_cases hl : rest.length + 1 ≠ io.comps * len <;> simp [Bls.decodeCompressed, hl, hc]
+  · intro hi hs
+    by_cases hl : rest.length + 1 ≠ io.comps * len <;> by_cases hc : b0 / 128 % 2 ≠ 1 <;>
+      simp [Bls.decodeCompressed, hl, hc, hi, hs]
+  · intro hi hz
+    by_cases hl : rest.length + 1 ≠ io.comps * len <;> by_cases hc : b0 / 128 % 2 ≠ 1 <;>
+      by_cases hs : b0 / 32 % 2 = 1 <;> simp [Bls.decodeCompressed, hl, hc, hi, hs]
+    simpa using hz
+
+/-- **accepted ⇒ valid** (compressed): on the curve and in the subgroup (the test `Bls.inSub`) -/
+theorem bls_decode_valid (h : GoodCoordIO io len) (bs : List Nat) (P : WPt F)
+    (hd : Bls.decodeCompressed io a b n len bs = some P) :
+    W.onCurve a b P = true ∧ Bls.inSub a n P = true := by
+  cases bs with
+  | nil => simp [Bls.decodeCompressed] at hd
+  | cons b0 rest =>
+    by_cases hl : rest.length + 1 ≠ io.comps * len
+    · simp [Bls.decodeCompressed, hl] at hd
+    by_cases hc : b0 / 128 % 2 ≠ 1
+    · simp [Bls.decodeCompressed, hl, hc] at hd
+    by_cases hi : b0 / 64 % 2 = 1
+    · by_cases hs : b0 / 32 % 2 = 1
+      · simp [Bls.decodeCompressed, hl, hc, hi, hs] at hd
+      · simp only [Bls.decodeCompressed, hl, hc, hi, hs, if_true, if_false] at hd
+        split at hd
+        · cases hd; exact ⟨rfl, rfl⟩
+        · simp at hd
+    · simp only [Bls.decodeCompressed, hl, hc, hi, if_false] at hd
+      cases hr : io.sqrt? (Bls.readCoord io len (b0 % 32 :: rest) * Bls.readCoord io len (b0 % 32 :: rest) *
+            Bls.readCoord io len (b0 % 32 :: rest) + a * Bls.readCoord io len (b0 % 32 :: rest) + b) with
+      | none => simp [hr] at hd
+      | some r =>
+        have hrr := h.sqrt_sound _ _ hr
+        simp only [hr] at hd
+        have key : ∀ y : F, y * y = Bls.readCoord io len (b0 % 32 :: rest) * Bls.readCoord io len (b0 % 32 :: rest) *
+              Bls.readCoord io len (b0 % 32 :: rest) + a * Bls.readCoord io len (b0 % 32 :: rest) + b →
+            (if Bls.inSub a n (.aff (Bls.readCoord io len (b0 % 32 :: rest)) y) = true
+              then some (WPt.aff (Bls.readCoord io len (b0 % 32 :: rest)) y) else none) = some P →
+            W.onCurve a b P = true ∧ Bls.inSub a n P = true := by
+          intro y hy hd'
+          by_cases hsub : Bls.inSub a n (.aff (Bls.readCoord io len (b0 % 32 :: rest)) y) = true
+          · rw [if_pos hsub] at hd'
+            cases hd'
+            exact ⟨(onCurve_aff_iff a b _ _).2 hy, hsub⟩
+          · rw [if_neg hsub] at hd'
+            cases hd'
+        by_cases hn : io.isNeg r = (b0 / 32 % 2 == 1)
+        · rw [if_pos hn] at hd; exact key r hrr hd
+        · rw [if_neg hn] at hd; exact key (-r) (by rw [← hrr]; ring) hd
+
+/-- accepted ⇒ valid (uncompressed) -/
+theorem bls_decode_valid_uncompressed (bs : List Nat) (P : WPt F)
+    (hd : Bls.decodeUncompressed io a b n len bs = some P) :
+    W.onCurve a b P = true ∧ Bls.inSub a n P = true := by
+  cases bs with
+  | nil => simp [Bls.decodeUncompressed] at hd
+  | cons b0 rest =>
+    by_cases hl : rest.length + 1 ≠ 2 * io.comps * len
+    · simp [Bls.decodeUncompressed, hl] at hd
+    by_cases hi : b0 / 64 % 2 = 1
+    · simp only [Bls.decodeUncompressed, hl, hi, if_true, if_false] at hd
+      cases hd; exact ⟨rfl, rfl⟩
+    · simp only [Bls.decodeUncompressed, hl, hi, if_false] at hd
+      split at hd
+      · next hc =>
+        cases hd
+        simpa using hc
+      · simp at hd
+
+/-- **decode ∘ encode, BLS compressed**: every subgroup point round-trips (flags `100`/`101` + `x`,
+`110` + zeros for the identity) -/
+theorem bls_decode_encode (h : GoodCoordIO io len) (hpos : 0 < io.comps * len) (P : WPt F)
+    (hP : W.onCurve a b P = true) (hS : Bls.inSub a n P = true) :
+    Bls.decodeCompressed io a b n len (Bls.encodeCompressed io len P) = some P := by
+  cases P with
+  | inf =>
+    obtain ⟨k, hk⟩ := Nat.exists_eq_succ_of_ne_zero (Nat.pos_iff_ne_zero.1 hpos)
+    simp [Bls.encodeCompressed, Bls.decodeCompressed, Bls.setFlags, hk, List.replicate_succ]
+  | aff x y =>
+    have hxy : y * y = x * x * x + a * x + b := (onCurve_aff_iff a b x y).1 hP
+    obtain ⟨b0, rest, hbytes, hb0, hlen⟩ := h.bytes_shape x
+    have hread := h.read_bytes x
+    rw [hbytes] at hread
+    obtain ⟨r, hr⟩ := h.sqrt_complete y
+    have hrr : r * r = y * y := h.sqrt_sound _ _ hr
+    have hry : r = y ∨ r = -y := by
+      have : (r - y) * (r + y) = 0 := by linear_combination hrr
+      rcases mul_eq_zero.1 this with h1 | h1
+      · left; exact sub_eq_zero.1 h1
+      · right; exact eq_neg_of_add_eq_zero_left h1
+    have hpick : ∀ s : Bool, s = io.isNeg y → (if io.isNeg r = s then r else -r) = y := by
+      intro s hs
+      subst hs
+      rcases hry with rfl | rfl
+      · simp
+      · by_cases hy0 : y = 0
+        · subst hy0; simp
+        · have := h.isNeg_neg y hy0
+          simp [this]
+    by_cases hneg : io.isNeg y = true
+    · have e1 : (b0 + (128 + 32)) / 128 % 2 = 1 := by omega
+      have e2 : (b0 + (128 + 32)) / 64 % 2 = 0 := by omega
+      have e3 : (b0 + (128 + 32)) / 32 % 2 = 1 := by omega
+      have e4 : (b0 + (128 + 32)) % 32 = b0 := by omega
+      have := hpick true hneg.symm
+      simp only [Bls.encodeCompressed, hbytes, Bls.setFlags, hneg, if_true, Bls.decodeCompressed, hlen,
+        ne_eq, not_true_eq_false, if_false, e1, e2, e3, e4, hread, ← hxy, hr]
+      simp [this, hS]
+    · have hneg' : io.isNeg y = false := by simpa using hneg
+      have e1 : (b0 + (128 + 0)) / 128 % 2 = 1 := by omega
+      have e2 : (b0 + (128 + 0)) / 64 % 2 = 0 := by omega
+      have e3 : (b0 + (128 + 0)) / 32 % 2 = 0 := by omega
+      have e4 : (b0 + (128 + 0)) % 32 = b0 := by omega
+      have := hpick false hneg'.symm
+      simp only [Bls.encodeCompressed, hbytes, Bls.setFlags, hneg', Bool.false_eq_true, if_false,
+        Bls.decodeCompressed, hlen, ne_eq, not_true_eq_false, e1, e2, e3, e4, hread, ← hxy, hr]
+      simp [this, hS]
+
+/-- distinct subgroup points have distinct BLS compressed encodings -/
+theorem bls_encode_injective (h : GoodCoordIO io len) (hpos : 0 < io.comps * len) (P Q : WPt F)
+    (hP : W.onCurve a b P = true) (hQ : W.onCurve a b Q = true)
+    (hSP : Bls.inSub a n P = true) (hSQ : Bls.inSub a n Q = true)
+    (he : Bls.encodeCompressed io len P = Bls.encodeCompressed io len Q) : P = Q := by
+  have h1 := bls_decode_encode io a b n len h hpos P hP hSP
+  have h2 := bls_decode_encode io a b n len h hpos Q hQ hSQ
+  rw [he, h2] at h1
+  exact (Option.some.inj h1).symm
+
+end bls
+
+/-! ## the constants of the Go encoders -/
+
+/-- generated table → the model's record -/
+def ofGen (f : Gen.EncConsts.Facts) : Consts.Facts :=
+  ⟨f.lens, f.cmps, f.masks, f.shifts, f.idx, f.vals, f.sizes⟩
+
+open Gen.EncConsts in
+/-- **the tag bytes, flag masks, shift amounts, byte indices and lengths that the encoders / decoders
+of /repo hard-code are the ones the model is written with** (`Consts.expected`): regenerated from the
+sources on every run, so a changed mask (`0x7f` → `0x3f`), tag, flag position or length breaks this
+proof even before a failing input is found. -/
+theorem enc_constants_match_source :
+    [("k256_FromCompressed", ofGen k256_FromCompressed), ("k256_FromUncompressed", ofGen k256_FromUncompressed),
+     ("k256_ToCompressed", ofGen k256_ToCompressed), ("k256_ToUncompressed", ofGen k256_ToUncompressed),
+     ("p256_FromCompressed", ofGen p256_FromCompressed), ("p256_FromUncompressed", ofGen p256_FromUncompressed),
+     ("p256_ToCompressed", ofGen p256_ToCompressed), ("p256_ToUncompressed", ofGen p256_ToUncompressed),
+     ("pallas_FromCompressed", ofGen pallas_FromCompressed), ("pallas_FromUncompressed", ofGen pallas_FromUncompressed),
+     ("pallas_ToCompressed", ofGen pallas_ToCompressed), ("pallas_ToUncompressed", ofGen pallas_ToUncompressed),
+     ("vesta_FromCompressed", ofGen vesta_FromCompressed), ("vesta_FromUncompressed", ofGen vesta_FromUncompressed),
+     ("vesta_ToCompressed", ofGen vesta_ToCompressed), ("vesta_ToUncompressed", ofGen vesta_ToUncompressed),
+     ("ed25519_FromCompressed", ofGen ed25519_FromCompressed), ("ed25519_FromUncompressed", ofGen ed25519_FromUncompressed),
+     ("ed25519_ToCompressed", ofGen ed25519_ToCompressed), ("ed25519_ToUncompressed", ofGen ed25519_ToUncompressed),
+     ("ed25519_Fp_SetBytes", ofGen ed25519_Fp_SetBytes),
+     ("curve25519_FromCompressed", ofGen curve25519_FromCompressed), ("curve25519_FromUncompressed", ofGen curve25519_FromUncompressed),
+     ("curve25519_ToCompressed", ofGen curve25519_ToCompressed), ("curve25519_ToUncompressed", ofGen curve25519_ToUncompressed),
+     ("g1_FromCompressed", ofGen g1_FromCompressed), ("g1_FromUncompressed", ofGen g1_FromUncompressed),
+     ("g1_ToCompressed", ofGen g1_ToCompressed), ("g1_ToUncompressed", ofGen g1_ToUncompressed),
+     ("g2_FromCompressed", ofGen g2_FromCompressed), ("g2_FromUncompressed", ofGen g2_FromUncompressed),
+     ("g2_ToCompressed", ofGen g2_ToCompressed), ("g2_ToUncompressed", ofGen g2_ToUncompressed)]
+      = Consts.expected ∧
+    functions = Consts.expected.map (·.1) ++ ["gt_FromBytes"] ∧
+    gt_FromBytes.lens = [12 * Consts.lenBls] ∧
+    [k256_FpBytes, p256_FpBytes, pasta_FpBytes, pasta_FqBytes, ed25519_FpBytes] = List.replicate 5 Consts.len256 ∧
+    bls12381_FpBytes = Consts.lenBls := by decide
+
+/-- **the model's arithmetic is written with those constants**: the sign flag of the Pasta / Edwards
+forms is bit `signShift` of the last byte and `coordMask` keeps the coordinate bits (`topBit`); the SEC1
+decoders accept exactly the tags `tagEven`/`tagOdd` resp. `tagUncompressed` and the encoders emit them;
+the BLS flags are bits `blsC`/`blsI`/`blsS` of the first byte and `blsBodyMask` keeps the rest. -/
+theorem enc_constants_used_by_model {F : Type} [Field F] [DecidableEq F] (io : FieldIO F) (a b : F) :
+    (∀ len, 0 < len → topBit len = 256 ^ (len - 1) * 2 ^ Consts.signShift ∧
+      topBit len = 256 ^ (len - 1) * (Consts.coordMask + 1)) ∧
+    Consts.topBitMask = 2 ^ Consts.signShift ∧
+    (∀ len tag xs, tag ≠ Consts.tagEven → tag ≠ Consts.tagOdd →
+      Sec1.decodeCompressed io a b len (tag :: xs) = none) ∧
+    (∀ len tag xs, tag ≠ Consts.tagUncompressed → Sec1.decodeUncompressed io a b len (tag :: xs) = none) ∧
+    (∀ len P, (Sec1.encodeCompressed io len P).head? = some Consts.tagEven ∨
+      (Sec1.encodeCompressed io len P).head? = some Consts.tagOdd) ∧
+    (∀ len P, (Sec1.encodeUncompressed io len P).head? = some Consts.tagUncompressed) ∧
+    (128 = 2 ^ Consts.blsC ∧ 64 = 2 ^ Consts.blsI ∧ 32 = 2 ^ Consts.blsS ∧ 32 = Consts.blsBodyMask + 1 ∧
+      192 = 2 ^ Consts.blsC + 2 ^ Consts.blsI) := by
+  refine ⟨?_, by decide, ?_, ?_, ?_, ?_, by decide⟩
+  · intro len hlen
+    have h8 : 8 * len - 1 = 8 * (len - 1) + 7 := by omega
+    have : topBit len = 256 ^ (len - 1) * 2 ^ 7 := by
+      rw [topBit, h8, pow_add, show (256 : Nat) = 2 ^ 8 by norm_num, ← pow_mul]
+    exact ⟨this, this⟩
+  · intro len tag xs h2 h3
+    exact (decode_flags io a b len tag xs).1 h2 h3
+  · intro len tag xs h4
+    exact (decode_flags io a b len tag xs).2 h4
+  · intro len P
+    cases P with
+    | inf => left; rfl
+    | aff x y =>
+      rcases Nat.mod_two_eq_zero_or_one (io.toNat y) with h0 | h1
+      · left; simp [Sec1.encodeCompressed, h0, Consts.tagEven]
+      · right; simp [Sec1.encodeCompressed, h1, Consts.tagOdd]
+  · intro len P
+    cases P <;> rfl
 
 /-! ## scalars and prime-field elements -/
 
@@ -413,5 +918,105 @@ example : powMod 400 3 5 11 = 3 ^ 5 % 11 := by decide
 example : Scalar.fromBytes 7 1 [9] = some 2 ∧ Scalar.fromBytes 7 1 [9, 0] = none ∧
     Scalar.fromWideBytes 7 2 [1, 0] = some 4 ∧ Scalar.toBytes 2 258 = [1, 2] := by decide
 example : Scalar.fromBytes 251 1 (Scalar.toBytes 1 200) = some 200 := (bytes_roundtrip 251 1 200 (by decide) (by decide)).1
+
+/-! ### non-vacuity of the value / off-curve / flag-bit / BLS / constants theorems -/
+
+theorem io7_top : ∀ x, io7.toNat x < topBit 1 := by decide
+
+/-- the accepted point's `x` is the byte read: `03 ‖ 01` gives `(1, 5)` -/
+example : ∀ x y, WPt.aff (1 : ZMod 7) 5 = .aff x y → x = io7.ofNat (beNat [1]) :=
+  (decode_value io7 0 3 1 3 [1] (.aff 1 5) (by decide)).2
+
+/-- `y² = x³ + 2` over `F₇` has no point with `x = 1`: `02 ‖ 01` is rejected -/
+example : Sec1.decodeCompressed io7 0 2 1 [2, 1] = none :=
+  (decode_offcurve io7 0 2 1 io7_good 2).1 [1] (by decide) (by decide)
+
+example : Sec1.decodeUncompressed io7 0 3 1 [4, 1, 3] = none :=
+  (decode_offcurve io7 0 3 1 io7_good 4).2 [1, 3] (by decide) (by decide)
+
+example : Pasta.decodeCompressed io7 0 2 1 [1] = none :=
+  pasta_decode_offcurve io7 0 2 1 io7_good [1] (by decide) (by decide)
+
+/-- Pasta layout over `F₇` with one byte: `(1, 5)` is `0x81` and round-trips; `(1, 2)` is `0x01` -/
+example : Pasta.encodeCompressed io7 1 (.aff 1 5) = [0x81] ∧
+    Pasta.decodeCompressed io7 0 3 1 (Pasta.encodeCompressed io7 1 (.aff 1 5)) = some (.aff 1 5) :=
+  ⟨by decide, pasta_decode_encode io7 0 3 1 io7_good (by decide) io7_top (.aff 1 5) (by decide)
+    (by intro x y h; cases h; decide)⟩
+
+example : Pasta.decodeUncompressed io7 0 3 1 (Pasta.encodeUncompressed io7 1 (.aff 1 2)) = some (.aff 1 2) :=
+  pasta_decode_encode_uncompressed io7 0 3 1 io7_good (by decide) (.aff 1 2) (by decide)
+
+example : Pasta.encodeCompressed io7 1 (.aff 1 2) ≠ Pasta.encodeCompressed io7 1 (.aff 1 5) := fun he =>
+  absurd ((pasta_encode_injective io7 0 3 1 io7_good (by decide) io7_top (by decide) (.aff 1 2) (.aff 1 5)
+    (by decide) (by decide)).2 (by intro x y h; cases h; decide) (by intro x y h; cases h; decide) he) (by decide)
+
+example : ∀ x y, Pasta.decodeCompressed io7 0 3 1 [0x81] = some (.aff x y) → x = io7.ofNat (leNat [0x81] % topBit 1) :=
+  fun x y h => pasta_decode_value io7 0 3 1 [0x81] x y h
+
+/-- `−x² + y² = 1 + 4x²y²` over `F₇` (`a = −1 = 6`, `d = 4`, `a/d = 5` a non-residue): `(1, 2)` is on
+the curve and round-trips in both forms -/
+example : Ed.decodeCompressed io7 6 4 1 (Ed.encodeCompressed io7 1 ⟨1, 2⟩) = some ⟨1, 2⟩ :=
+  ed_decode_encode io7 6 1 io7_good (by decide) io7_top 4 (by decide) ⟨1, 2⟩ (by decide)
+
+example : Ed.decodeUncompressed io7 6 4 1 (Ed.encodeUncompressed io7 1 ⟨1, 2⟩) = some ⟨1, 2⟩ :=
+  ed_decode_encode_uncompressed io7 6 1 io7_good io7_top 4 ⟨1, 2⟩ (by decide)
+
+example : Ed.encodeCompressed io7 1 ⟨1, 2⟩ ≠ Ed.encodeCompressed io7 1 ⟨6, 2⟩ := fun he =>
+  absurd ((ed_encode_injective io7 6 1 io7_good (by decide) io7_top 4 (by decide) ⟨1, 2⟩ ⟨6, 2⟩
+    (by decide) (by decide)).1 he) (by decide)
+
+example : Ed.encodeCompressed io7 1 ⟨1, 2⟩ = [0x82] ∧
+    (⟨1, 2⟩ : EPt (ZMod 7)).y = io7.ofNat (leNat (Ed.encodeCompressed io7 1 ⟨1, 2⟩) % topBit 1) :=
+  ⟨by decide, ed_decode_value io7 6 1 4 _ ⟨1, 2⟩
+    (ed_decode_encode io7 6 1 io7_good (by decide) io7_top 4 (by decide) ⟨1, 2⟩ (by decide))⟩
+
+/-- over `F₇`: `(0, 6)` and the identity `(0, 1)` share the all-zero `u ‖ v` encoding -/
+example : Mont.encodeUncompressed io7 3 1 ⟨0, -1⟩ = [0, 0] ∧ Mont.encodeUncompressed io7 3 1 E.zero = [0, 0] :=
+  ⟨(mont_order2_collides io7 1 3 (by decide) (by decide)).2.trans (by decide), by decide⟩
+
+/-- a one-component BLS-style coordinate view over `F₇` (one byte per coordinate) -/
+def cio7 : CoordIO (ZMod 7) where
+  comps := 1
+  toNats x := [x.val]
+  ofNats xs := ((xs.headD 0 : Nat) : ZMod 7)
+  sqrt? := io7.sqrt?
+  isNeg y := decide ((-y).val < y.val)
+
+theorem cio7_bytes : ∀ x : ZMod 7, Bls.coordBytes cio7 1 x = [x.val] := by decide
+
+theorem cio7_good : GoodCoordIO cio7 1 where
+  bytes_shape := fun x => ⟨x.val, [], cio7_bytes x, by revert x; decide, rfl⟩
+  read_bytes := by decide
+  sqrt_sound := by decide
+  sqrt_complete := by decide
+  isNeg_neg := by decide
+
+/-- `y² = x³ + 3` over `F₇` has 13 points (prime order): `(1, 2)` is in the "subgroup" and round-trips
+through the flag byte; `(1, 5)` is the lexicographically larger root and carries the sort flag -/
+example : Bls.encodeCompressed cio7 1 (.aff 1 5) = [0x80 + 0x20 + 1] ∧
+    Bls.decodeCompressed cio7 0 3 13 1 (Bls.encodeCompressed cio7 1 (.aff 1 5)) = some (.aff 1 5) :=
+  ⟨by decide, bls_decode_encode cio7 0 3 13 1 cio7_good (by decide) (.aff 1 5) (by decide) (by decide)⟩
+
+example : Bls.decodeCompressed cio7 0 3 13 1 (Bls.encodeCompressed cio7 1 .inf) = some .inf :=
+  bls_decode_encode cio7 0 3 13 1 cio7_good (by decide) .inf (by decide) (by decide)
+
+example : W.onCurve (0 : ZMod 7) 3 (.aff 1 2) = true ∧ Bls.inSub (0 : ZMod 7) 13 (.aff 1 2) = true :=
+  bls_decode_valid cio7 0 3 13 1 cio7_good [0x81] (.aff 1 2) (by decide)
+
+example : Bls.decodeCompressed cio7 0 3 13 1 [0x01] = none ∧ Bls.decodeCompressed cio7 0 3 13 1 [0xe0] = none ∧
+    Bls.decodeCompressed cio7 0 3 13 1 [0xc1] = none ∧ Bls.decodeCompressed cio7 0 3 13 1 [0x81, 0] = none :=
+  ⟨(bls_decode_flags cio7 0 3 13 1 0x01 []).1 (by decide),
+   (bls_decode_flags cio7 0 3 13 1 0xe0 []).2.1 (by decide) (by decide),
+   (bls_decode_flags cio7 0 3 13 1 0xc1 []).2.2 (by decide) (by decide),
+   (bls_decode_len cio7 0 3 13 1 [0x81, 0]).1 (by decide)⟩
+
+example : Bls.encodeCompressed cio7 1 (.aff 1 2) ≠ Bls.encodeCompressed cio7 1 (.aff 1 5) := fun he =>
+  absurd (bls_encode_injective cio7 0 3 13 1 cio7_good (by decide) (.aff 1 2) (.aff 1 5)
+    (by decide) (by decide) (by decide) (by decide) he) (by decide)
+
+/-- the constants theorem is about real numbers: the Pasta mask is `0x7f`, the sign shift `7` -/
+example : Consts.pastaFromCompressed.masks = [1, 0x7f] ∧ Consts.pastaFromCompressed.shifts = [7] ∧
+    topBit 32 = 256 ^ 31 * 0x80 :=
+  ⟨by decide, by decide, ((enc_constants_used_by_model io7 0 3).1 32 (by decide)).1⟩
 
 end BronVerif.Props.C13
